@@ -97,6 +97,8 @@ class C05System(BuilderSystem):
         ] + ([
             # bounds tightened on a live builder: values that were legal (and may be the tracked ones) now fail
             ["set_bounds", ["feed-rate", 55, 58]], ["set_bounds", ["tool-power", 35, 40]], ["set_bounds", ["axes", [0, 0, -1], [1.5, 1.5, 1]]],
+            # open-ended limits (a lower limit only)
+            ["set_bounds", ["feed-rate", 10, INF]], ["set_bounds", ["tool-power", 0, INF]],
         ] if self.bounded else [])
 
     def failing_ops(self):
